@@ -368,6 +368,10 @@ class Documentable:
         This is just a simple helper which defers to self.privacyClass.
         """
         isVisible = self.privacyClass is not PrivacyClass.HIDDEN
+        if ' ' in self.name:
+            # An older definition superseded by a later one of the same name
+            # (renamed by System.handleDuplicate) is never rendered.
+            isVisible = False
         # If a module/package/class is hidden, all it's members are hidden as well.
         if isVisible and self.parent:
             isVisible = self.parent.isVisible
